@@ -103,13 +103,19 @@ pub fn norm_toks(toks: &[Tok]) -> Vec<Tok> {
 }
 
 pub fn norm_block(b: &Block) -> Block {
+    norm_block_with(b, true)
+}
+
+/// `merge`: apply the C07 merging of items that start with a list (off when the parsed structure itself
+/// is what is compared: the builder binding of spec/Builder.tla)
+pub fn norm_block_with(b: &Block, merge: bool) -> Block {
     let mut b = b.clone();
     if b.k != "Code" && b.k != "Html" {
         b.t = norm_toks(&b.t);
     }
-    b.c = b.c.iter().map(norm_block).collect();
-    b.items = b.items.iter().map(|it| it.iter().map(norm_block).collect()).collect();
-    if b.k == "BL" || b.k == "OL" {
+    b.c = b.c.iter().map(|x| norm_block_with(x, merge)).collect();
+    b.items = b.items.iter().map(|it| it.iter().map(|x| norm_block_with(x, merge)).collect()).collect();
+    if merge && (b.k == "BL" || b.k == "OL") {
         b.items = merge_leading_lists(b.items);
     }
     b.rows = b.rows.iter().map(|r| r.iter().map(|c| norm_toks(c)).collect()).collect();
@@ -149,6 +155,10 @@ fn merge_leading_lists(items: Vec<Vec<Block>>) -> Vec<Vec<Block>> {
         }
     }
     out
+}
+
+pub fn norm_doc_raw(d: &Doc) -> Doc {
+    Doc { meta: d.meta.clone(), blocks: d.blocks.iter().map(|b| norm_block_with(b, false)).collect() }
 }
 
 pub fn norm_doc(d: &Doc) -> Doc {
